@@ -116,6 +116,7 @@ type snap struct {
 	stake            map[common.Address]uint64
 	sumStake         uint64
 	penalty          map[string]uint64 // pubkey hex -> InitPos+AuthorizePos
+	apen             map[string]uint64 // pubkey hex -> AuthorizePos (authorizer penalties in the record)
 	penaltyKeys      []string
 	sumPenalty       uint64
 	split            map[common.Address]uint64
@@ -202,7 +203,7 @@ func (h *hist) badRec(what string, v []byte) {
 
 // readSnap reads everything the generator and the oracles look at.
 func (h *hist) readSnap() *snap {
-	s := &snap{pool: map[string]*peerItem{}, stake: map[common.Address]uint64{}, penalty: map[string]uint64{},
+	s := &snap{pool: map[string]*peerItem{}, stake: map[common.Address]uint64{}, penalty: map[string]uint64{}, apen: map[string]uint64{},
 		split: map[common.Address]uint64{}, promise: map[string]uint64{}, attrs: map[string]*gov.PeerAttributes{},
 		ont: map[common.Address]uint64{}}
 
@@ -273,6 +274,7 @@ func (h *hist) readSnap() *snap {
 			h.t.Fatalf("C11: penalty stake sum overflows uint64")
 		}
 		s.penalty[pub] = ip + ap
+		s.apen[pub] = ap
 		s.penaltyKeys = append(s.penaltyKeys, pub)
 		s.sumPenalty += ip + ap
 	})
